@@ -184,6 +184,8 @@ type Node struct {
 	Title    string
 	Tracking string            // value of the tracking header, "" if absent
 	Headers  map[string]string // extra headers
+	Pre      [][2]string       // headers written before the title line, in order (an earlier title: header loses against the later one)
+	Post     [][2]string       // headers written after the title/tracking lines, in order (never title or tracking)
 	Body     []*Stmt
 }
 
